@@ -79,6 +79,9 @@ func runC02(rc *RunCtx) {
 	smallWin := F.Draw(3) == 1
 	winSel := F.Draw(4)
 	abortsOn := F.Draw(4) == 1
+	if F.Draw(4) == 1 {
+		w.EOFWithData = []int{300, 1000}[F.Draw(2)] // a stream's last bytes may arrive together with its end
+	}
 	keys := genKeys(G, 1+G.Draw(6), "")
 	srv := startTCPServer(rc, w, tcpServerOpts{Keys: keys, Replay: []int{0, 50}[G.Draw(2)], Timeout: []time.Duration{time.Second, 59 * time.Second}[G.Draw(2)], UseSvc: G.Draw(3) == 0, Debug: rc.F.Draw(3) == 1})
 	nConn := 1 + G.Draw(3)
